@@ -1,6 +1,7 @@
 (** Proofs about the status protocol of Status.v: mutual exclusion for every program that
     acquires with a compare-and-swap and releases last, over every number of threads and
-    every schedule; and the refutation of the check-then-store shape. *)
+    every schedule -- also when every call follows a path of its own (panicking paths) --;
+    and the refutation of the check-then-store shape and of handlers run after the release. *)
 From incr Require Import Base Status.
 
 (** ** The shape forced by the two syntactic predicates *)
@@ -38,14 +39,15 @@ Qed.
 
 Lemma predicates_shape prog :
   acquires_atomically prog = true -> releases_last prog = true ->
-  exists k n, shape prog k n.
+  exists n, shape prog (acq_index prog) n.
 Proof.
   induction prog as [|a prog IH]; [discriminate|].
-  cbn [acquires_atomically releases_last].
+  cbn [acquires_atomically releases_last acq_index].
   destruct (is_probe a) eqn:Hp.
   - assert (is_write a = false) as -> by (destruct a; try discriminate; reflexivity).
-    intros Ha Hr. destruct (IH Ha Hr) as (k & n & [H1 H2 H3 H4 H5 H6]).
-    exists (S k), n. split.
+    intros Ha Hr. destruct (IH Ha Hr) as (n & [H1 H2 H3 H4 H5 H6]).
+    set (k := acq_index prog) in *.
+    exists n. split.
     + intros j c Hj Hc. destruct j as [|j]; simpl in Hc; [congruence|]. apply (H1 j); [lia|exact Hc].
     + exact H2.
     + exact H3.
@@ -58,7 +60,7 @@ Proof.
     apply andb_true_iff in Ha as [Hold Hnew]. apply andb_true_iff in Hr as [_ Hb].
     apply Z.eqb_eq in Hold. subst old. apply negb_true_iff, Z.eqb_neq in Hnew.
     destruct (good_body_spec _ Hb) as (Hlen & Hbody & Hlast).
-    exists 0%nat, new. split.
+    exists new. split.
     + intros j c Hj. lia.
     + reflexivity.
     + exact Hnew.
@@ -166,17 +168,22 @@ Qed.
 
 (** ** The system invariant *)
 
-Record sinv (prog : program) (k : nat) (st : state) : Prop := SInv {
-  si_thr  : forall i, tinv prog k (threads st i);
-  si_one  : forall i j, inside k (threads st i) -> inside k (threads st j) -> i = j;
-  si_busy : forall i, inside k (threads st i) -> status st <> 0;
-  si_free : (forall i, ~ inside k (threads st i)) -> status st = 0
+(** thread [i] runs the path [pf i]; its acquire sits at [kof pf i] *)
+Definition kof (pf : nat -> program) (i : nat) : nat := acq_index (pf i).
+
+Definition shaped (pf : nat -> program) : Prop := forall i, exists n, shape (pf i) (kof pf i) n.
+
+Record sinv (pf : nat -> program) (st : state) : Prop := SInv {
+  si_thr  : forall i, tinv (pf i) (kof pf i) (threads st i);
+  si_one  : forall i j, inside (kof pf i) (threads st i) -> inside (kof pf j) (threads st j) -> i = j;
+  si_busy : forall i, inside (kof pf i) (threads st i) -> status st <> 0;
+  si_free : (forall i, ~ inside (kof pf i) (threads st i)) -> status st = 0
 }.
 
-Lemma sinv_init prog k n : shape prog k n -> sinv prog k init.
+Lemma sinv_init pf : shaped pf -> sinv pf init.
 Proof.
   intros Hsh. split; simpl.
-  - intros _. eapply tinv_thread0; eauto.
+  - intros i. destruct (Hsh i) as [n Hn]. eapply tinv_thread0; eauto.
   - intros i j Hi. unfold inside in Hi; simpl in Hi; lia.
   - intros i Hi. unfold inside in Hi; simpl in Hi; lia.
   - reflexivity.
@@ -188,12 +195,13 @@ Proof. unfold upd. rewrite Nat.eqb_refl. reflexivity. Qed.
 Lemma upd_other ths i t j : j <> i -> upd ths i t j = ths j.
 Proof. unfold upd. intros H. apply Nat.eqb_neq in H. rewrite H. reflexivity. Qed.
 
-Lemma step_sinv prog k n m st i :
-  shape prog k n -> sinv prog k st -> sinv prog k (fst (step m prog st i)).
+Lemma stepf_sinv pf m st i :
+  shaped pf -> sinv pf st -> sinv pf (fst (stepf m pf st i)).
 Proof.
-  intros Hsh [Ht Hone Hbusy Hfree]. unfold step.
+  intros Hshaped [Ht Hone Hbusy Hfree]. unfold stepf.
   destruct (Nat.ltb i m); [|split; assumption].
-  destruct (step_thread prog (status st) (threads st i)) as [[s' t'] e] eqn:Hstep.
+  destruct (step_thread (pf i) (status st) (threads st i)) as [[s' t'] e] eqn:Hstep.
+  destruct (Hshaped i) as [n Hsh].
   destruct (step_thread_cases _ _ _ _ _ _ _ _ Hsh (Ht i) Hstep) as (Ht' & Hcases & _).
   simpl.
   assert (Hoth : forall j, j <> i -> upd (threads st) i t' j = threads st j)
@@ -233,15 +241,15 @@ Proof.
     + reflexivity.
 Qed.
 
-Lemma exec_from_sinv prog k n m sch st :
-  shape prog k n -> sinv prog k st -> sinv prog k (exec_from m prog st sch).
+Lemma exec_fromf_sinv pf m sch st :
+  shaped pf -> sinv pf st -> sinv pf (exec_fromf m pf st sch).
 Proof.
   intros Hsh. revert st. induction sch as [|i sch IH]; intros st Hst; simpl; [exact Hst|].
-  apply IH. eapply step_sinv; eauto.
+  apply IH. apply stepf_sinv; assumption.
 Qed.
 
-Lemma exec_sinv prog k n m sch : shape prog k n -> sinv prog k (exec m prog sch).
-Proof. intros Hsh. apply (exec_from_sinv _ _ _ _ _ _ Hsh). eapply sinv_init; eauto. Qed.
+Lemma execf_sinv pf m sch : shaped pf -> sinv pf (execf m pf sch).
+Proof. intros Hsh. apply exec_fromf_sinv; [exact Hsh|]. apply sinv_init; exact Hsh. Qed.
 
 Lemma at_work_inside prog k n t : shape prog k n -> at_work prog t = true -> inside k t.
 Proof.
@@ -254,14 +262,64 @@ Qed.
 
 (** ** The theorems *)
 
-(** Mutual exclusion: for every program that acquires with a compare-and-swap and releases
-    last, every number of threads [n] and every schedule,
-    - at most one thread is inside the node functions / update handlers,
+(** Mutual exclusion over paths: every thread [i] runs its own path [pf i]; if every path
+    acquires with a compare-and-swap and releases last, then for every number of threads
+    [n] and every schedule,
+    - at most one thread is inside the node functions / handlers,
     - at most one thread is between its acquire and its release (has written the word in
       its current call),
     - a thread inside Work/Handlers is such a thread, and the word is non-zero meanwhile,
     - a call that returns ErrAlreadyStabilizing has written nothing, and the step that
       fails leaves the word as it was. *)
+Theorem status_mutex_paths : forall pf : nat -> program,
+  (forall i, good_path (pf i) = true) ->
+  forall (n : nat) (sch : schedule),
+    let st := execf n pf sch in
+    (forall i j, at_work (pf i) (threads st i) = true -> at_work (pf j) (threads st j) = true -> i = j)
+    /\ (forall i j, wrote (threads st i) = true -> wrote (threads st j) = true -> i = j)
+    /\ (forall i, at_work (pf i) (threads st i) = true -> wrote (threads st i) = true /\ status st <> 0)
+    /\ (forall i st', stepf n pf st i = (st', EvErr) ->
+          wrote (threads st i) = false /\ status st' = status st).
+Proof.
+  intros pf Hgood n sch st.
+  assert (Hshaped : shaped pf).
+  { intros i. specialize (Hgood i). unfold good_path in Hgood.
+    apply andb_true_iff in Hgood as [Ha Hr]. apply predicates_shape; assumption. }
+  pose proof (execf_sinv pf n sch Hshaped) as Hinv. fold st in Hinv.
+  destruct Hinv as [Ht Hone Hbusy Hfree].
+  split; [|split; [|split]].
+  - intros i j Hi Hj. destruct (Hshaped i) as [ni Hsi]. destruct (Hshaped j) as [nj Hsj].
+    apply Hone; eapply at_work_inside; eauto.
+  - intros i j Hi Hj. apply Hone; [apply (Ht i)|apply (Ht j)]; assumption.
+  - intros i Hi. destruct (Hshaped i) as [ni Hsi].
+    pose proof (at_work_inside _ _ _ _ Hsi Hi) as Hin. split.
+    + apply (Ht i). exact Hin.
+    + apply (Hbusy i Hin).
+  - intros i st' Hstep. unfold stepf in Hstep.
+    destruct (Nat.ltb i n); [|inversion Hstep].
+    destruct (step_thread (pf i) (status st) (threads st i)) as [[s' t'] e] eqn:Hst.
+    inversion Hstep; subst; clear Hstep.
+    destruct (Hshaped i) as [ni Hsi].
+    destruct (step_thread_cases _ _ _ _ _ _ _ _ Hsi (Ht i) Hst) as (_ & _ & Herr).
+    destruct (Herr eq_refl) as [-> Hw]. simpl. auto.
+Qed.
+
+(** the same for a finite set of paths: whatever path each call takes *)
+Corollary status_mutex_path_set : forall (paths : list program) (pf : nat -> program),
+  forallb good_path paths = true -> (forall i, In (pf i) paths) ->
+  forall (n : nat) (sch : schedule),
+    let st := execf n pf sch in
+    (forall i j, at_work (pf i) (threads st i) = true -> at_work (pf j) (threads st j) = true -> i = j)
+    /\ (forall i j, wrote (threads st i) = true -> wrote (threads st j) = true -> i = j)
+    /\ (forall i, at_work (pf i) (threads st i) = true -> wrote (threads st i) = true /\ status st <> 0)
+    /\ (forall i st', stepf n pf st i = (st', EvErr) ->
+          wrote (threads st i) = false /\ status st' = status st).
+Proof.
+  intros paths pf Hall Hin. apply status_mutex_paths.
+  intros i. rewrite forallb_forall in Hall. apply Hall. apply Hin.
+Qed.
+
+(** one program for everybody: the statement of the first version of this development *)
 Theorem status_mutex : forall prog,
   acquires_atomically prog = true -> releases_last prog = true ->
   forall (n : nat) (sch : schedule),
@@ -272,22 +330,31 @@ Theorem status_mutex : forall prog,
     /\ (forall i st', step n prog st i = (st', EvErr) ->
           wrote (threads st i) = false /\ status st' = status st).
 Proof.
-  intros prog Ha Hr n sch st.
-  destruct (predicates_shape _ Ha Hr) as (k & v & Hsh).
-  pose proof (exec_sinv prog k v n sch Hsh) as Hinv. fold st in Hinv.
-  destruct Hinv as [Ht Hone Hbusy Hfree].
-  split; [|split; [|split]].
-  - intros i j Hi Hj. apply Hone; eapply at_work_inside; eauto.
-  - intros i j Hi Hj. apply Hone; [apply (Ht i)|apply (Ht j)]; assumption.
-  - intros i Hi. pose proof (at_work_inside _ _ _ _ Hsh Hi) as Hin. split.
-    + apply (Ht i). exact Hin.
-    + apply (Hbusy i Hin).
-  - intros i st' Hstep. unfold step in Hstep.
-    destruct (Nat.ltb i n); [|inversion Hstep].
-    destruct (step_thread prog (status st) (threads st i)) as [[s' t'] e] eqn:Hst.
-    inversion Hstep; subst; clear Hstep.
-    destruct (step_thread_cases _ _ _ _ _ _ _ _ Hsh (Ht i) Hst) as (_ & _ & Herr).
-    destruct (Herr eq_refl) as [-> Hw]. simpl. auto.
+  intros prog Ha Hr n sch.
+  apply (status_mutex_paths (fun _ => prog)).
+  intros _. unfold good_path. rewrite Ha, Hr. reflexivity.
+Qed.
+
+(** A path on which user code runs after the release is not safe, whatever the other calls
+    do: while the first call is in its trailing handlers (the word is 0 again) a second,
+    perfectly ordinary call gets in and runs node functions. *)
+Definition handlers_after_release : program :=
+  [Cas 0 1; Store 1; Work; Handlers; Store 2; Handlers; Store 0; Handlers].
+
+Definition ordinary_path : program :=
+  [Cas 0 1; Store 1; Work; Handlers; Store 2; Handlers; Store 0].
+
+Theorem handlers_after_release_refuted :
+  good_path ordinary_path = true /\ good_path handlers_after_release = false /\
+  exists sch : schedule,
+    let pf := fun i => if Nat.eqb i 0 then handlers_after_release else ordinary_path in
+    let st := execf 2 pf sch in
+    at_work (pf 0%nat) (threads st 0%nat) = true /\
+    in_node_functions (pf 1%nat) (threads st 1%nat) = true /\
+    status st <> 0.
+Proof.
+  split; [vm_compute; reflexivity|]. split; [vm_compute; reflexivity|].
+  exists [0; 0; 0; 0; 0; 0; 0; 1; 1]%nat. vm_compute. repeat split; discriminate.
 Qed.
 
 (** the hypotheses are satisfiable, and the protocol is not vacuously safe: a thread does
